@@ -228,10 +228,30 @@ const SHARD_DEPTH: usize = 3;
 
 pub fn explore<W: World>(mk: &dyn Fn() -> W, prop: &str, bounds: &Bounds) -> Stats {
     let mut stats = Stats::default();
-    let mut seen: HashMap<u64, usize> = HashMap::new();
     let t0 = std::time::Instant::now();
-    let mut prefix = Vec::new();
-    dfs(mk, prop, bounds, &mut stats, &mut seen, &mut prefix, 0, t0);
+    if bounds.cap_s == 0 {
+        let mut seen: HashMap<u64, usize> = HashMap::new();
+        let mut prefix = Vec::new();
+        dfs(mk, prop, bounds, &mut stats, &mut seen, &mut prefix, 0, t0);
+        return stats;
+    }
+    // Under a wall cap the depth is iterated, so that what was covered when the
+    // cap hits is a completed depth bound and not a fragment of the deepest one.
+    // (Counts then include the re-exploration of the shallower bounds.)
+    let first = bounds.depth.saturating_sub(3).max(1).min(bounds.depth);
+    stats.bound_completed = Some(-1);
+    for d in first..=bounds.depth {
+        let mut b = bounds.clone();
+        b.depth = d;
+        b.d_all = bounds.d_all.min(d);
+        let mut seen: HashMap<u64, usize> = HashMap::new();
+        let mut prefix = Vec::new();
+        dfs(mk, prop, &b, &mut stats, &mut seen, &mut prefix, 0, t0);
+        if stats.capped {
+            break;
+        }
+        stats.bound_completed = Some(d as i64);
+    }
     stats
 }
 
